@@ -432,7 +432,7 @@ func (w *World) inject(f *Fault) {
 			if c.Server == addrOf(f.Srv) && (f.Mgr < 0 || c.Client == w.mgrs[f.Mgr].Name) {
 				w.net.Reset(c)
 				w.faultsInc("reset")
-				w.ev("fault-reset", "conn=%d", c.ID)
+				w.ev("fault-reset", "conn=%s", c.Key)
 			}
 		}
 	case "partition":
